@@ -426,6 +426,19 @@ func utf8String(n int, kind int) string {
 	if kind == 0 {
 		return string(content(n, 0))
 	}
+	if kind == 2 {
+		// valid UTF-8 a text-minded decoder might "clean up": NUL, BOM, the last code point, a noncharacter, a
+		// combining sequence; padded with NULs, so most lengths END in NUL
+		rs := []string{"\x00", "\uFEFF", "\U0010FFFF", "\uFFFF", "e\u0301", " "}
+		var sb strings.Builder
+		for i := 0; sb.Len()+4 <= n; i++ {
+			sb.WriteString(rs[i%len(rs)])
+		}
+		for sb.Len() < n {
+			sb.WriteByte(0)
+		}
+		return sb.String()
+	}
 	// multi-byte runes: é (2), € (3), 😀 (4)
 	rs := []string{"é", "€", "😀", "a"}
 	var sb strings.Builder
@@ -560,7 +573,7 @@ func lengthAlphabet(limits ...int) []int {
 
 func gString(h *H) {
 	for _, n := range lengthAlphabet(DefaultMaxStringSize) {
-		for kind := 0; kind < 2; kind++ {
+		for kind := 0; kind < 3; kind++ {
 			s := utf8String(n, kind)
 			if len(s) != n {
 				continue
@@ -584,6 +597,12 @@ func gString(h *H) {
 				h.reject("StringMax", fmt.Sprintf("max=%d len=%d", max, n), e, func(rd io.Reader) (any, error) { return ReadStringMax(rd, max) })
 			}
 		}
+	}
+	// the cap counts CHARACTERS: exactly max characters of 4 bytes each is the longest legitimate string
+	for _, max := range []int{1, 16, 255, 32767} {
+		max := max
+		s := strings.Repeat("😀", max)
+		h.check("StringMax", fmt.Sprintf("max=%d chars of 4 bytes", max), refLenPrefixed([]byte(s)), nil, func(rd io.Reader) (any, error) { return ReadStringMax(rd, max) }, s)
 	}
 	for _, l := range []int32{-1, -2, math.MinInt32, math.MaxInt32, 1 << 30, DefaultMaxStringSize*4 + 1} {
 		in := append(refVarInt(l), 'x')
@@ -805,7 +824,7 @@ func gUTF(h *H) {
 		if n > 65535 {
 			continue
 		}
-		s := utf8String(n, n%2)
+		s := utf8String(n, n%3)
 		if len(s) != n {
 			s = utf8String(n, 0)
 		}
